@@ -30,7 +30,8 @@ def tlc_programs(chk, cfg, name, simulate=None, depth=None, exhaustive=True, tim
     if not r.ok:
         raise ToolError("spec Programs violates %s under %s" % (r.violated, cfg))
     chk.add_tlc(name, r, exhaustive=exhaustive)
-    ps = progs_from(r)
+    # TLC's workers print in a schedule-dependent order: sort, so that a seed selects the same programs
+    ps = sorted(progs_from(r), key=lambda p: json.dumps(p["prog"], sort_keys=True))
     # de-duplicate (simulation revisits prefixes)
     seen, out = set(), []
     for p in ps:
